@@ -603,7 +603,7 @@ def check(run: lib.Run, audit: dict) -> int:
     # … and the evaluator's whole ACCESS PROGRAM from the text: the cache range with lock blocks / generation reads as effects, `_cache_key`
     # expanded to the reads it makes, `_decide_async` to the accesses of its translation = Conc.expectedEvalMiss / expectedEvalHit
     prog = (audit["facts"].get("translated_decide") or {}).get("engine_eval_program") if isinstance(audit["facts"].get("translated_decide"), dict) else None
-    ok_prog, detail_prog = lib.run_obligation("C09_eval_program", deps=["C09_decide_translated"])
+    ok_prog, detail_prog = lib.run_obligation("C09_eval_program")
     run.obligation("C09_eval_program: Generated.Src.engine_eval_program (the cache range of Guard._evaluate_core_async with lock acquire/release and the "
                    "reads of _policy_gen as effects, _cache_key / _decide_async as labelled calls), with _cache_key expanded to Generated.Src.cacheKeyReads "
                    "(what _cache_key reads of self, from the text) and _decide_async to the access sequence of Generated.Src.guard_decide_async, is "
